@@ -228,6 +228,90 @@ pub fn run(rep: &mut Rep) {
             }
         }
     }
+    // many cancellations at once
+    let ns: Vec<usize> = if rep.quick() { vec![9, 17, 33, 65, 129, 300] } else { vec![7, 8, 9, 15, 16, 17, 31, 32, 33, 63, 64, 65, 127, 128, 129, 255, 256, 257, 1000] };
+    rep.note(&format!("wide: {:?} operations of every kind outstanding, two thirds of them cancelled in PRNG order in every phase (before the context sees them, awaiting the acknowledgement, between the QoS 2 phases), all acknowledgements then delivered in PRNG order: run() keeps serving, every surviving operation completes with its own acknowledgement, all slots are free at the end", ns));
+    let mut widx = 75_000_000u64;
+    for (ni, &n) in ns.iter().enumerate() {
+        for variant in 0..2u8 {
+            let id = format!("wide:{n}:{variant}");
+            widx += 1;
+            if !rep.take(widx, &id) {
+                continue;
+            }
+            let mut rng = Rng::new(rep.seed.wrapping_mul(733).wrapping_add(ni as u64 * 2 + variant as u64));
+            let mut w = World::boot(WorldCfg { seed: rep.seed.wrapping_add(ni as u64), ..Default::default() });
+            w.sim.log_enabled = n <= 40;
+            let kinds = [Kind::Pub1, Kind::Pub2, Kind::Sub, Kind::Ping, Kind::Unsub, Kind::Pub2, Kind::Pub0];
+            let mut ops = Vec::new();
+            if variant == 1 {
+                w.sim.hold_ctx = true;
+            }
+            for j in 0..n {
+                let i = w.start(j % 2, kinds[j % kinds.len()]);
+                ops.push(i);
+                if variant == 0 {
+                    w.settle();
+                    if kinds[j % kinds.len()] == Kind::Pub2 && j % 2 == 1 && w.m[i].req_wire.is_some() {
+                        w.deliver_ack(i, 1, 0, 0);
+                        w.settle();
+                    }
+                }
+            }
+            w.settle_check();
+            let mut cancelled = 0;
+            for &i in &ops {
+                if rng.chance(2, 3) && w.sim.ops[i].task.alive() {
+                    w.drop_op(i);
+                    cancelled += 1;
+                    if rng.chance(1, 4) {
+                        w.settle();
+                    }
+                }
+            }
+            if variant == 1 {
+                w.sim.hold_ctx = false;
+            }
+            w.settle_check();
+            let mut guard = 0;
+            loop {
+                let mut ackable = w.ackable();
+                let pings = w.pings_outstanding().len();
+                if (ackable.is_empty() && pings == 0) || w.blind || guard > 4 * n + 50 {
+                    break;
+                }
+                if pings > 0 && (ackable.is_empty() || rng.chance(1, 5)) {
+                    w.pingresp();
+                } else {
+                    let (i, st) = ackable.swap_remove(rng.below(ackable.len()));
+                    w.deliver_ack(i, st, rng.below(9), (rng.next() % 2) as u8);
+                }
+                w.settle();
+                if guard % 32 == 0 {
+                    w.settle_check();
+                }
+                guard += 1;
+            }
+            w.settle_check();
+            end_probe(rep, &mut w);
+            finish(&mut w);
+            for v in w.viols.iter_mut() {
+                if !v.props.contains(&"C15") && !v.props.contains(&"*") {
+                    v.sig = format!("C15/after-cancel/{}", v.sig);
+                    v.props = &["C15"];
+                }
+            }
+            rep.add("evaluations", 1);
+            rep.add("wide_cases", 1);
+            rep.add("cancellations", cancelled);
+            rep.max("max_cancellations_in_one_run", cancelled);
+            rep.distinct(&("wide", n, variant));
+            if harvest(rep, &mut w, &id) == 0 {
+                rep.sample(|| format!("{id}: {cancelled} of {n} operations cancelled, {} late acknowledgements absorbed, survivors completed", w.counters.late_acks));
+            }
+            add_counters(rep, &w);
+        }
+    }
     // random walks
     let mut wb = b.clone();
     wb.max_ops = 8;
